@@ -359,7 +359,11 @@ func (p *Project) WithProfiles(profiles []string) (*Project, error) {
 	}
 	newProject.Services = enabled
 	newProject.DisabledServices = disabled
-	newProject.Profiles = profiles
+	// not the caller's slice: it may be the receiver's own (p.WithProfiles(p.Profiles))
+	newProject.Profiles = nil
+	if profiles != nil {
+		newProject.Profiles = append([]string{}, profiles...)
+	}
 	return newProject, nil
 }
 
